@@ -41,6 +41,7 @@ type wsRig struct {
 	baseW      int
 	setupTask  *simrt.Task
 	peerClosed atomic.Bool
+	paused     atomic.Bool // the peer application stops reading
 }
 
 // newWsRig spawns the set-up tasks; reader is the data processor installed on
@@ -101,6 +102,10 @@ func newWsRig(x *Ctx, uutClient bool, onReady func(r *wsRig)) *wsRig {
 // peerReadLoop records everything the peer receives until its read fails.
 func (r *wsRig) peerReadLoop() {
 	for {
+		if r.paused.Load() {
+			simrt.Sleep(5 * sec)
+			continue
+		}
 		typ, b, err := r.peer.ReadMessage()
 		if err != nil {
 			r.x.Ev("p-readerr", errStr(err), "", 0)
@@ -234,7 +239,9 @@ func setupC12(x *Ctx) {
 		case "cut":
 			rig.uc.Cut()
 		case "stall":
-			rig.uc.SetStall(true)
+			// the peer application stops reading and the buffers are nearly full
+			rig.paused.Store(true)
+			rig.uc.SetSendCapacity(48)
 		}
 		x.Ev("closing-done", closing, "", 0)
 		close(closerDone)
